@@ -26,7 +26,8 @@ from harness.sched_sql import SqlSched, explore
 from harness.translate import programs as trp
 from harness.translate import status as trs
 
-THEOREMS = ["stop_postcondition_partial", "fuel_suffices", "stop_hangs_on_waiting_parent", "kill_program_matches"]
+THEOREMS = ["stop_postcondition_partial", "fuel_suffices", "stop_postcondition_ended_threads", "pruning_ended_threads_strands_them",
+            "stop_hangs_on_waiting_parent", "kill_program_matches"]
 
 SQL_PATCH = [
     ("pynenc.util.sqlite_utils", "create_sqlite_connection"),
@@ -82,7 +83,7 @@ def scheduled(ctx: Ctx, kind: str, drv: LeanDriver) -> None:
     ctxR = runner.runner_context
     total = nd = 0
     try:
-        for script in ("ok", "fail", "retry"):
+        for script in ("ok", "fail", "retry", "pause"):      # pause: the thread ends and leaves the invocation RUNNING
             for start in ("pending", "finished"):
                 model_line = drv.ask(f"stop.terminals {script} {start}")
                 model_terms = set(model_line.split())
